@@ -131,3 +131,57 @@ package fieldmask
 //@   loop 1 invariant desc != nil && 0 <= it.pos && it.pos <= len(it.src)
 //@   loop 1.1 invariant desc != nil && et != nil && cur != nil && 0 <= it.pos && it.pos <= len(it.src)
 //@   loop 1.2 invariant desc != nil && et != nil && cur != nil && 0 <= it.pos && it.pos <= len(it.src)
+
+// ---- mask construction helpers (storage.go): what addPath builds the trie with ----
+// A slot is created with the requested type in the mask's own colour, an unset slot (typ == 0) is (re)initialised, a
+// set slot is returned untouched; no other key changes.
+
+//@ func (im intMap) SetIfNotExist(i int, ft FieldMaskType, black bool) *FieldMask
+//@   requires im != nil
+//@   ensures result != nil && im[i] == result
+//@   ensures old(im[i]) == nil ==> fresh(result) && result.typ == ft && !result.isAll && result.isBlack == black
+//@   ensures old(im[i]) != nil ==> result == old(im[i])
+//@   ensures old(im[i]) != nil && old(im[i].typ) == 0 ==> result.typ == ft && !result.isAll && result.isBlack == black
+//@   ensures old(im[i]) != nil && old(im[i].typ) != 0 ==> result.typ == old(result.typ) && result.isAll == old(result.isAll) && result.isBlack == old(result.isBlack)
+//@   ensures forall k int :: k != i ==> im[k] == old(im[k])
+//@   modifies contents(im), im[i].typ, im[i].isAll, im[i].isBlack
+
+//@ func (im strMap) SetIfNotExist(i string, ft FieldMaskType, black bool) *FieldMask
+//@   requires im != nil
+//@   ensures result != nil && im[i] == result
+//@   ensures old(im[i]) == nil ==> fresh(result) && result.typ == ft && !result.isAll && result.isBlack == black
+//@   ensures old(im[i]) != nil ==> result == old(im[i])
+//@   ensures old(im[i]) != nil && old(im[i].typ) == 0 ==> result.typ == ft && !result.isAll && result.isBlack == black
+//@   ensures old(im[i]) != nil && old(im[i].typ) != 0 ==> result.typ == old(result.typ) && result.isAll == old(result.isAll) && result.isBlack == old(result.isBlack)
+//@   ensures forall k string :: k != i ==> im[k] == old(im[k])
+//@   modifies contents(im), im[i].typ, im[i].isAll, im[i].isBlack
+
+//@ func (self *FieldMask) setAll(ft FieldMaskType) *FieldMask
+//@   requires self != nil
+//@   ensures result != nil && self.all == result
+//@   ensures old(self.all) == nil ==> fresh(result) && result.typ == ft && !result.isAll && result.isBlack == self.isBlack
+//@   ensures old(self.all) != nil ==> result == old(self.all)
+//@   ensures old(self.all) != nil && old(self.all.typ) == 0 ==> result.typ == ft && !result.isAll && result.isBlack == self.isBlack
+//@   ensures old(self.all) != nil && old(self.all.typ) != 0 ==> result.typ == old(result.typ) && result.isAll == old(result.isAll) && result.isBlack == old(result.isBlack)
+//@   modifies self.all, self.all.typ, self.all.isAll, self.all.isBlack
+
+//@ func (self *FieldMask) setInt(v int, ft FieldMaskType, cap int) *FieldMask
+//@   requires self != nil && cap >= 0
+//@   ensures result != nil && self.intMask != nil && self.intMask[v] == result
+//@   ensures old(self.intMask) != nil ==> self.intMask == old(self.intMask)
+//@   ensures (old(self.intMask) == nil || old(self.intMask[v]) == nil) ==> fresh(result) && result.typ == ft && !result.isAll && result.isBlack == self.isBlack
+//@   modifies self.intMask, contents(self.intMask), self.intMask[v].typ, self.intMask[v].isAll, self.intMask[v].isBlack
+
+//@ func (self *FieldMask) setStr(v string, ft FieldMaskType, cap int) *FieldMask
+//@   requires self != nil && cap >= 0
+//@   ensures result != nil && self.strMask != nil && self.strMask[v] == result
+//@   ensures old(self.strMask) != nil ==> self.strMask == old(self.strMask)
+//@   ensures (old(self.strMask) == nil || old(self.strMask[v]) == nil) ==> fresh(result) && result.typ == ft && !result.isAll && result.isBlack == self.isBlack
+//@   modifies self.strMask, contents(self.strMask), self.strMask[v].typ, self.strMask[v].isAll, self.strMask[v].isBlack
+
+//@ func (self *FieldMask) setFieldID(f fieldID, ft FieldMaskType) *FieldMask
+//@   requires self != nil && (self.fdMask != nil ==> self.fdMask.tail != nil)
+//@   ensures result != nil && self.fdMask != nil && at(self.fdMask, f) == result
+//@   ensures old(self.fdMask) != nil ==> self.fdMask == old(self.fdMask)
+//@   ensures (old(self.fdMask) == nil || old(at(self.fdMask, f)) == nil) ==> fresh(result) && result.typ == ft && !result.isAll && result.isBlack == self.isBlack
+//@   modifies self.fdMask, self.fdMask.head, contents(self.fdMask.tail), at(self.fdMask, f).typ, at(self.fdMask, f).isAll, at(self.fdMask, f).isBlack
